@@ -83,13 +83,6 @@ Proof.
   specialize (H _ Hd). simpl in H. rewrite H1, H2 in H. exact H.
 Qed.
 
-Lemma no_shared_edgeb_sound C A : no_shared_edgeb C A = true -> no_shared_edge C A.
-Proof.
-  unfold no_shared_edgeb, no_shared_edge. rewrite forallb_forall. intros H e He.
-  apply hase_get in He as [d Hd]. apply (get_Some_In ekey_eqb ekey_eqb_eq) in Hd.
-  specialize (H _ Hd). simpl in H. apply negb_true_iff in H. exact H.
-Qed.
-
 Lemma merge_all_wf As C :
   forallb wf_admb As = true -> nodupb N.eqb (map adm_id As) = true -> merge_all As = Some C -> wf_cbm C.
 Proof.
@@ -130,24 +123,12 @@ Proof. apply (merge_all_wf [A1]); vm_compute; reflexivity. Qed.
 Lemma wf_CB13 : wf_cbm CB13.
 Proof. apply (merge_all_wf [B1; B3]); vm_compute; reflexivity. Qed.
 
-(* (1) the full statement "merge then unmerge restores the combined model" is FALSE of the model (and of
-   the code): a connection present in both keeps networkx's contraction mark *)
-Theorem unmerge_inverse_contraction_refuted :
-  exists C A C', wf_cbm C /\ wf_adm A /\ not_contributor (adm_id A) C /\ no_new_inner_edges C A /\
-                 smerge C A = Some C' /\ ~ eqv (sunmerge C' (adm_id A)) C.
-Proof.
-  exists CA1, A2, (the (smerge CA1 A2)). split; [exact wf_CA1|]. split; [apply wf_admb_sound; vm_compute; reflexivity|].
-  split; [apply not_contributorb_sound; vm_compute; reflexivity|].
-  split; [apply no_new_inner_edgesb_sound; vm_compute; reflexivity|].
-  split; [vm_compute; reflexivity|].
-  intros [_ H]. specialize (H (10, 11)). vm_compute in H. discriminate.
-Qed.
-
-(* (2) without "no new inner connection" even the statement modulo contraction marks is FALSE: the family
-   [B1; B3; B2] is consistent, yet unmerging B2 leaves its connection 10 - 11 behind *)
+(* (1) the full statement "merge then unmerge restores the combined model" is FALSE of the model (and of the
+   code) without "no new inner connection": the family [B1; B3; B2] is consistent, yet unmerging B2 leaves its
+   connection 10 - 11 behind (connections carry no contributor record) *)
 Theorem unmerge_inverse_edge_refuted :
   exists C A C', wf_cbm C /\ wf_adm A /\ not_contributor (adm_id A) C /\
-                 smerge C A = Some C' /\ ~ eqv_noflag (sunmerge C' (adm_id A)) C.
+                 smerge C A = Some C' /\ ~ eqv (sunmerge C' (adm_id A)) C.
 Proof.
   exists CB13, B2, (the (smerge CB13 B2)). split; [exact wf_CB13|]. split; [apply wf_admb_sound; vm_compute; reflexivity|].
   split; [apply not_contributorb_sound; vm_compute; reflexivity|].
@@ -155,7 +136,7 @@ Proof.
   intros [_ H]. specialize (H (10, 11)). vm_compute in H. discriminate.
 Qed.
 
-(* (3) without "a shared element is described identically" the result DOES depend on the merge order: the
+(* (2) without "a shared element is described identically" the result DOES depend on the merge order: the
    combined model keeps the class / plain properties of whichever model was merged first *)
 Definition P1 : adm := mkAdm 1 [(10, mkA 1 [(5, 6)] None None)] [].
 Definition P2 : adm := mkAdm 2 [(10, mkA 1 [(5, 7)] None None); (11, mkA 2 [] None (Some 8))] [((10, 11), (4, []))].
@@ -177,20 +158,10 @@ Lemma ex_order :
                getn 10 (nodes C') = Some (mkC 1 [(5, 6)] [2; 1] (Some (2, 7)) None).
 Proof. eexists. eexists. repeat split; vm_compute; reflexivity. Qed.
 
-Lemma ex_unmerge_exact :
-  wf_cbm CA1 /\ wf_adm A4 /\ not_contributor (adm_id A4) CA1 /\ no_new_inner_edges CA1 A4 /\ no_shared_edge CA1 A4 /\
-  exists C', smerge CA1 A4 = Some C' /\ hasn 15 (nodes C') = true /\ hasn 15 (nodes (sunmerge C' 4)) = false.
-Proof.
-  split; [exact wf_CA1|]. split; [apply wf_admb_sound; vm_compute; reflexivity|].
-  split; [apply not_contributorb_sound; vm_compute; reflexivity|].
-  split; [apply no_new_inner_edgesb_sound; vm_compute; reflexivity|].
-  split; [apply no_shared_edgeb_sound; vm_compute; reflexivity|].
-  eexists. repeat split; vm_compute; reflexivity.
-Qed.
-
-Lemma ex_unmerge_noflag :
+Lemma ex_unmerge :
   wf_cbm CA1 /\ wf_adm A2 /\ not_contributor (adm_id A2) CA1 /\ no_new_inner_edges CA1 A2 /\
-  exists C', smerge CA1 A2 = Some C' /\ gete (10, 11) (edges C') = Some ((4, []), true).
+  exists C', smerge CA1 A2 = Some C' /\ hasn 13 (nodes C') = true /\ hasn 13 (nodes (sunmerge C' 2)) = false /\
+             gete (10, 11) (edges C') = Some (4, []).
 Proof.
   split; [exact wf_CA1|]. split; [apply wf_admb_sound; vm_compute; reflexivity|].
   split; [apply not_contributorb_sound; vm_compute; reflexivity|].
